@@ -141,6 +141,22 @@ Theorem C37_key_decode_prefix_agrees : forall s b,
 Proof. intros s b. split; [exact (decode_prefix_panic_iff s b) | exact (decode_prefix_agrees s b)]. Qed.
 Print Assumptions C37_key_decode_prefix_agrees.
 
+(* Decrypt is a function of (stored bytes, password) only and leaves the stored bytes alone: in
+   any sequence of attempts on the same in-memory ciphertext every attempt answers what a first
+   attempt would, the buffer is unchanged, and the right password still returns the message after
+   any number of earlier (failed or successful) attempts.  [DstFresh] is the code's
+   gcm.Open(nil, ...); the in-place alternative violates the statement (Example below). *)
+Theorem C37_repeated_attempts : forall cipher buf pws,
+  attempts cipher DstFresh buf pws = (map (fun pw => decrypt cipher pw buf) pws, buf).
+Proof. exact attempts_fresh. Qed.
+Print Assumptions C37_repeated_attempts.
+
+Theorem C37_right_password_after_attempts : forall cipher pw nonce msg ct pws,
+  encrypt cipher pw nonce msg = Ok ct ->
+  exists rs, attempts cipher DstFresh ct (pws ++ [pw]) = (rs ++ [Ok msg], ct) /\ length rs = length pws.
+Proof. exact attempts_then_right. Qed.
+Print Assumptions C37_right_password_after_attempts.
+
 (* The pinned tree's Decrypt (no length check before data[:12]) crashes on a short input; it
    agrees with the repaired one on every input of at least 12 bytes. *)
 Theorem C37_decrypt_prefix_refuted : forall cipher pw,
@@ -206,3 +222,19 @@ Proof. vm_compute. repeat split; reflexivity. Qed.
 (* secp_n is the order of the secp256k1 group (SEC 2): 2^256 - 432420386565659656852420866394968145599 *)
 Example C37_secp_n : secp_n = 2 ^ 256 - 432420386565659656852420866394968145599.
 Proof. reflexivity. Qed.
+
+(* the in-place alternative (gcm.Open(ciphertext[:0], ...), seeded change C37-m2) destroys the
+   stored ciphertext: a second attempt with the right password fails, after a right and after
+   a wrong first attempt *)
+Example C37_in_place_loses_the_key :
+  let pw := map n2b [110;111;111;116] in
+  let msg := map n2b [104;101;108;108;111;119;111;114;108;100] in
+  let nonce := map n2b [1;2;3;4;5;6;7;8;9;10;11;12] in
+  match encrypt aes256 pw nonce msg with
+  | Ok ct => fst (attempts aes256 DstInPlace ct [pw; pw]) = [Ok msg; Err 1]
+             /\ fst (attempts aes256 DstInPlace ct [map n2b [120]; pw]) = [Err 1; Err 1]
+             /\ snd (attempts aes256 DstInPlace ct [pw]) <> ct
+             /\ attempts aes256 DstFresh ct [map n2b [120]; pw; pw] = ([Err 1; Ok msg; Ok msg], ct)
+  | _ => False
+  end.
+Proof. vm_compute. repeat split; try reflexivity. discriminate. Qed.
